@@ -52,6 +52,7 @@ type GenesisSpec struct {
 	ForkOn  bool             `json:"forkOn"`
 	ForkH   int64            `json:"forkH"`
 	Dev     bool             `json:"dev"`
+	Legacy  bool             `json:"legacy"` // genesis names the fork height in the legacy format
 }
 
 // Consts is what TLC prints with the CONST tag.
@@ -93,6 +94,7 @@ type Universe struct {
 	valTok   map[string]string
 	gammas   shcrypto.Gammas
 	txCache  map[string][]byte
+	lastSig  map[string][]byte // signature bytes of the last transaction signed for a token
 	Seed     int64
 }
 
@@ -100,7 +102,7 @@ func NewUniverse(c Consts, seed int64) *Universe {
 	u := &Universe{
 		C: c, priv: map[string]*ecdsa.PrivateKey{}, addr: map[string]common.Address{},
 		tokOf: map[common.Address]string{}, valBytes: map[string][]byte{}, valTok: map[string]string{},
-		txCache: map[string][]byte{}, Seed: seed,
+		txCache: map[string][]byte{}, lastSig: map[string][]byte{}, Seed: seed,
 	}
 	sort.Strings(u.C.Addrs)
 	for _, a := range u.C.Addrs {
@@ -193,7 +195,10 @@ func (u *Universe) encKey(tok string) *ecies.PublicKey {
 func (u *Universe) InitChainRequest() abcitypes.RequestInitChain {
 	g := u.C.Genesis
 	var fh *app.ForkHeights
-	if g.ForkOn {
+	if g.ForkOn && g.Legacy {
+		h := g.ForkH
+		fh = &app.ForkHeights{CheckInUpdate: &h} // genesis file written before checkInUpdateNew existed
+	} else if g.ForkOn {
 		fh = &app.ForkHeights{CheckInUpdateNew: app.ForkHeight{Enabled: true, Height: g.ForkH}}
 	} else {
 		fh = app.NewForkHeightsAllDisabled()
@@ -219,6 +224,9 @@ func header(h int64) tmproto.Header { return tmproto.Header{Height: h} }
 
 // Concretise turns the abstract transaction into the bytes handed to CheckTx/DeliverTx.
 func (u *Universe) Concretise(tx Tx) []byte {
+	if tx.K == "forged" {
+		return u.forge(tx)
+	}
 	kb, _ := json.Marshal(tx)
 	key := string(kb)
 	if b, ok := u.txCache[key]; ok {
@@ -235,6 +243,10 @@ func (u *Universe) concretise(tx Tx) []byte {
 		raw, _ := base64.RawURLEncoding.DecodeString(string(good))
 		enc := func(b []byte) []byte { return []byte(base64.RawURLEncoding.EncodeToString(b)) }
 		rng := rand.New(rand.NewSource(u.Seed*131 + int64(tx.Gm)))
+		if tx.Gm >= 10 {
+			// exact decoded lengths around the signature length: 63, 64, 65, 66 bytes of a real envelope
+			return enc(raw[:63+tx.Gm-10])
+		}
 		switch tx.Gm % 10 {
 		case 0:
 			return []byte("!!! not base64 !!!")
@@ -332,6 +344,23 @@ func (u *Universe) concretise(tx Tx) []byte {
 	return u.sign(tx.S, &shmsg.MessageWithNonce{ChainId: []byte(chain), RandomNonce: tx.N, Msg: msg})
 }
 
+// forge puts the signature bytes of the victim's last transaction in front of a different payload
+// (a config vote with a fresh nonce): the signature does not cover the payload.
+func (u *Universe) forge(tx Tx) []byte {
+	sig := u.lastSig[tx.S]
+	if sig == nil {
+		// the victim has not signed anything in this process yet: sign something now
+		u.sign(tx.S, &shmsg.MessageWithNonce{ChainId: []byte(ChainID), RandomNonce: 1 << 40, Msg: shmsg.NewBlockSeen(1)})
+		sig = u.lastSig[tx.S]
+	}
+	msg := shmsg.NewBatchConfig(tx.Cfg.Act, u.addrs(tx.Cfg.Keypers), tx.Cfg.Thr, tx.Cfg.Idx)
+	body, err := proto.Marshal(&shmsg.MessageWithNonce{ChainId: []byte(ChainID), RandomNonce: tx.N + 1<<32, Msg: msg})
+	if err != nil {
+		panic(err)
+	}
+	return []byte(base64.RawURLEncoding.EncodeToString(append(append([]byte{}, sig...), body...)))
+}
+
 func (u *Universe) badList(bad string, addrs *[][]byte, vals *[][]byte) {
 	switch bad {
 	case "dupAddr":
@@ -358,5 +387,6 @@ func (u *Universe) sign(tok string, m *shmsg.MessageWithNonce) []byte {
 	if err != nil {
 		panic(err)
 	}
+	u.lastSig[tok] = append([]byte{}, signed[:65]...)
 	return []byte(base64.RawURLEncoding.EncodeToString(signed))
 }
